@@ -244,7 +244,7 @@ prop("C20",
           "during and after Serve; every return value must be the one Server's specification gives")
 
 prop("C05",
-     pure=["big", "deframe", "prefix"],
+     pure=["big", "deframe", "prefix", "update", "errtree", "attrs"],
      specgen=(30, 300),
      scripts=lambda tier, rnd: S.pm_busy() + S.pm_gates() + S.api_races() + S.lis_fail() + S.life_cycle() + S.close_race_connect(12 if tier == "thorough" else 4) +
      sample(S.pacing(), rnd, 120 if tier == "thorough" else 25) +
